@@ -107,7 +107,7 @@ func WithClosures(fn *ssa.Function) []*ssa.Function {
 func CalleeName(ci ssa.CallInstruction) string {
 	c := ci.Common()
 	if c.IsInvoke() {
-		return "iface:" + TypeStr(c.Value.Type()) + "." + c.Method.Name()
+		return "iface:" + ifaceDeclaring(c.Value.Type(), c.Method) + "." + c.Method.Name()
 	}
 	if f := c.StaticCallee(); f != nil {
 		return FuncName(f)
@@ -1375,4 +1375,19 @@ func conditionalStore(g *ssa.Function, fv *types.Var) bool {
 		})
 	})
 	return cond
+}
+
+// ifaceDeclaring names the interface an invoked method is DECLARED in: a
+// method reached through an embedding interface (ilist.Element embeds
+// ilist.Linker) is named after the embedded one, so that calling it on a value
+// of either static type gives the same callee name.
+func ifaceDeclaring(static types.Type, m *types.Func) string {
+	if sig, ok := m.Type().(*types.Signature); ok && sig.Recv() != nil {
+		if n, ok := sig.Recv().Type().(*types.Named); ok {
+			if _, isIface := n.Underlying().(*types.Interface); isIface {
+				return TypeStr(n)
+			}
+		}
+	}
+	return TypeStr(static)
 }
